@@ -73,6 +73,21 @@ Proof. exact wsdl_closed_thm. Qed.
 Theorem C07_one_op : forall perm a d, wsdl_of perm a = ROk d -> one_op a d.
 Proof. exact one_op_thm. Qed.
 
+(** binding names are unique and are, in order, the port type names *)
+Theorem C07_binding_unique : forall perm a d, wsdl_of perm a = ROk d ->
+  NoDup (map b_name (d_binds d)) /\ map b_name (d_binds d) = map pt_name (d_pts d).
+Proof. exact binding_unique_thm. Qed.
+
+(** port types and bindings pair off one to one; a binding lists, in the same
+    order, one matching operation per operation of its port type; all in all every
+    exposed method is exactly one binding operation (no port type listed twice in
+    one service's __port_types__) *)
+Theorem C07_binding_ops : forall perm a d, wsdl_of perm a = ROk d ->
+  (forall s, In s (a_svcs a) -> NoDup (s_ports s)) ->
+  Forall2 (fun p b => bind_matches p b (d_tns d)) (d_pts d) (d_binds d) /\
+  Permutation (flat_map b_ops (d_binds d)) (map (mk_bop a) (all_meths a)).
+Proof. exact binding_ops_thm. Qed.
+
 (* ---------------------------------------------------------------- witnesses *)
 Definition tx (l : list Z) : text := l.
 Definition tns0 := tx [116; 110; 115].                    (* "tns" as a namespace name *)
@@ -142,18 +157,17 @@ Example C07_ex_topo_key_needed :
   <> toposort2 (@rev Z) (fun _ => []) [(1, []); (2, [])].
 Proof. vm_compute. discriminate. Qed.
 
-(** REFUTED in general: binding names are not unique.  Two services that declare
-    the same port type name get one portType but two bindings of that name
-    (known finding C07|closed|duplicate-binding|shared-port-type-name). *)
+(** two services that declare the same port type name share the portType AND its
+    binding (the pinned tree wrote two bindings of that name; repaired) *)
 Definition shared_app : snap := app_of
   [ {| s_name := [83; 48]; s_ports := [[80]]; s_meths := [mkmeth [109; 48] (Some [80]) None []] |};
     {| s_name := [83; 49]; s_ports := [[80]]; s_meths := [mkmeth [109; 49] (Some [80]) None []] |} ].
-Theorem C07_binding_unique_refuted :
-  exists a d, wsdl_of (fun l => l) a = ROk d /\ faults_in_tns a /\ ~ NoDup (map b_name (d_binds d)).
+Example C07_ex_shared : exists d, wsdl_of (fun l => l) shared_app = ROk d
+  /\ map b_name (d_binds d) = [[80]] /\ map (fun b => map bo_name (b_ops b)) (d_binds d) = [[[109; 48]; [109; 49]]]
+  /\ (forall s, In s (a_svcs shared_app) -> NoDup (s_ports s)).
 Proof.
-  exists shared_app. eexists. split; [vm_compute; reflexivity|]. split.
-  - intros m f Hm Hf. vm_compute in Hm. destruct Hm as [<-|[<-|[]]]; destruct Hf.
-  - intro ND. vm_compute in ND. inversion ND as [|? ? N _]. apply N. left. reflexivity.
+  eexists. split; [vm_compute; reflexivity|]. split; [reflexivity|]. split; [reflexivity|].
+  intros s [<-|[<-|[]]]; repeat constructor; simpl; tauto.
 Qed.
 
 (** REFUTED in general: a part's element need not be defined by any schema.  A
